@@ -14,6 +14,12 @@ NOTE = ('Trusted: clang 14 front end, the extractor tools/theo_facts.cc, the Pyt
         'executed.')
 
 CLAIMS = {
+    'C02': ('allocation-site shape/nullness analysis of the syntax tree (parser + generator), guard/dominance rules for cursors, emptiness, ownership pairing, result dichotomy',
+            'PARTIAL. Decides: no NULL syntax-tree pointer is dereferenced (parser on every execution with look-ahead-sensitive '
+            'summaries; generator on every error-free tree shape), cursors/indices are guarded, back()/[0] only on provably '
+            'non-empty sequences (with reasoned, re-verified exceptions), allocations are paired with releases on all paths, the '
+            'result is correct XOR has errors, error records are well formed. Does not decide recursion-depth/work bounds, '
+            'bad_alloc, libstdc++/flex internals or the LR driver stack discipline.', '4/C02'),
     'C08': ('pairing / who-may-write rules over the two breakpoint tables; constant agreement across units',
             'Decides that both tables are updated together with the index of the emitted site and the current location, that '
             'removal is exact, that nobody else writes the tables or creates sites, that the hidden file is excluded by the '
